@@ -226,9 +226,10 @@ func (e *kvElection) handleWatchEvent(entry Entry) {
 				// Not on this goroutine: it is the watch loop, which must go on
 				// following the key (and running the periodic check) however long
 				// the application's OnDemote takes.
-				e.wg.Add(1)
+				wg := e.runWG()
+				wg.Add(1)
 				go func() {
-					defer e.wg.Done()
+					defer wg.Done()
 					e.notifyDemoted("leadership_lost_via_watcher")
 				}()
 				e.observeLeader(newLeaderID, entry.Revision())
@@ -264,9 +265,10 @@ func (e *kvElection) handleWatchEvent(entry Entry) {
 		)
 
 		// Attempt takeover in a goroutine to avoid blocking watcher
-		e.wg.Add(1)
+		wg := e.runWG()
+		wg.Add(1)
 		go func() {
-			defer e.wg.Done()
+			defer wg.Done()
 			if err := e.attemptAcquire(); err != nil {
 				// Takeover failed - stay as follower
 				log.Debug("priority_takeover_failed",
